@@ -25,7 +25,7 @@ type ecCase struct {
 	D      int      `json:"d"`
 	P      int      `json:"p"`
 	Size   int      `json:"size"`
-	Damage []string `json:"damage"` // per shard: "", missing, trunc0, trunc1, trunc16, trunc17, trunc18, half, flip-payload, flip-meta
+	Damage []string `json:"damage"`               // per shard: "", missing, trunc0, trunc1, trunc16, trunc17, trunc18, half, flip-payload, flip-meta
 	Write  []bool   `json:"write_fail,omitempty"` // per shard: the write of this shard fails
 	Repair bool     `json:"repair,omitempty"`
 	Second []bool   `json:"second,omitempty"` // C26: shards removed after the repairing read
@@ -446,14 +446,14 @@ func init() {
 		return len(ecConfigs) * 9
 	}
 	Register(&CheckDef{ID: "C25", Level: "fault_enumeration",
-		Rule: "each unit = one (d,p) in {(1,1),(2,1),(2,2),(3,2),(4,2)} x one blob size in {0,1,d-1,d,d+1,1023,1024,1025,65539}; ALL subsets of the d+p shard files x damage kind (missing, truncated to 0/1/16/17/18 bytes/half, payload bit flip, metadata bit flip; each kind uniformly plus 3 PRNG-mixed assignments per subset) on fs.NewBlobStoreWithEC over real files; plus ALL subsets of failing shard writes on Add. Oracle: <= p damaged => exact bytes; > p => error or exact bytes, never different bytes; any panic is a violation; Add fails iff more than p shard writes fail. distinct_nontrivial = distinct (d,p,size,damage/write pattern)",
+		Rule:    "each unit = one (d,p) in {(1,1),(2,1),(2,2),(3,2),(4,2)} x one blob size in {0,1,d-1,d,d+1,1023,1024,1025,65539}; ALL subsets of the d+p shard files x damage kind (missing, truncated to 0/1/16/17/18 bytes/half, payload bit flip, metadata bit flip; each kind uniformly plus 3 PRNG-mixed assignments per subset) on fs.NewBlobStoreWithEC over real files; plus ALL subsets of failing shard writes on Add. Oracle: <= p damaged => exact bytes; > p => error or exact bytes, never different bytes; any panic is a violation; Add fails iff more than p shard writes fail. distinct_nontrivial = distinct (d,p,size,damage/write pattern)",
 		Exhaust: "all shard subsets x uniform damage kinds for the listed (d,p) and sizes (mixed kinds are sampled)",
 		Units:   units, Run: runECUnit(false), Replay: replayEC,
 		Real:   []string{"fs.BlobStoreWithEC (Add, GetOne incl. shard metadata handling), fs/erasure (encode, decode, reconstruct), klauspost/reedsolomon"},
 		Stub:   []string{"TaskRunner concurrency (shard I/O tasks run inline, so a panic inside a shard task surfaces in the caller instead of killing the process)", "drives = directories on tmpfs"},
 		Assume: []string{"no schedule dimension: damage is applied between operations", "shard write failures are whole-file failures"}})
 	Register(&CheckDef{ID: "C26", Level: "fault_enumeration",
-		Rule: "repair enabled: for each (d,p) and size as in C25, ALL subsets of 1..p damaged shards x damage kinds; after one successful GetOne every shard file must be byte-identical to the freshly encoded shard, and for ALL subsets of p further removed shards the blob must still read back exactly. distinct_nontrivial = distinct (d,p,size,damage pattern,second failure set)",
+		Rule:    "repair enabled: for each (d,p) and size as in C25, ALL subsets of 1..p damaged shards x damage kinds; after one successful GetOne every shard file must be byte-identical to the freshly encoded shard, and for ALL subsets of p further removed shards the blob must still read back exactly. distinct_nontrivial = distinct (d,p,size,damage pattern,second failure set)",
 		Exhaust: "all damage subsets within parity x all second-failure subsets of size p for the listed (d,p) and sizes",
 		Units:   units, Run: runECUnit(true), Replay: replayEC, UnitLimit: 1200e9,
 		Real:   []string{"fs.BlobStoreWithEC GetOne with RepairCorruptedShards, fs/erasure"},
